@@ -246,6 +246,10 @@ func extremes(t *testing.T) {
 		if err != nil || uint64(len(by)) != b.GetSerializedSizeInBytes() {
 			t.Fatalf("%d chunks: ToBytes err=%v", nchunks, err)
 		}
+		var pw bytes.Buffer
+		if n, err := b.WriteTo(&pw); err != nil || int(n) != len(by) || !bytes.Equal(pw.Bytes(), by) {
+			t.Fatalf("%d chunks: WriteTo = (%d,%v) delivering %d bytes, ToBytes has %d", nchunks, n, err, pw.Len(), len(by))
+		}
 		pc, used, err := spec.DecodePortable(by, true)
 		if err != nil || used != len(by) || !spec.SetOf(pc).Equal(m) {
 			t.Fatalf("%d chunks: independent portable decode: %v", nchunks, err)
